@@ -22,6 +22,10 @@ def find_root(prog, name):
     if not cands:
         npath = M.norm_path(path)
         cands = [i for i in prog.insts if i["local"] and i["npath"] == npath]
+    if not cands:
+        # the item may have moved to another module (re-exported under the same public name)
+        npath = M.norm_path(path)
+        cands = [i for i in prog.insts if i["local"] and i["kind"] == "item" and M.tail_is(i["npath"], npath)]
     if len(cands) != 1:
         raise Unanalysable("anchor missing: entry point %s (%d candidates)" % (name, len(cands)))
     return cands[0], kind
@@ -73,11 +77,11 @@ def arg_value(m, st, tid, t, pb, argname):
                 st.heap["SELF"] = ("agg", tuple(fields))
                 st.flags["self_fields"] = tuple(f["name"] for f in to["variants"][0]["fields"])
                 return ("ptr", ("H", "SELF", ()))
-            if p == "ParserConfig":
+            if M.tail_is(p, "ParserConfig"):
                 fields = tuple(("env", "cfg:" + f["name"], True) for f in to["variants"][0]["fields"])
                 st.heap["CONFIG"] = ("agg", fields)
                 return ("ptr", ("H", "CONFIG", ()))
-            if p == "iter::Bytes":
+            if M.tail_is(p, "Bytes"):
                 raise Unanalysable("root taking &mut Bytes needs the benchable harness")
     raise Unanalysable("cannot build an abstract argument of type %s" % t["s"])
 
@@ -95,7 +99,7 @@ def bytes_state(m, inst_id, window="any"):
     st.w_first = ("m", (1 << 256) - 1)
     bt = None
     for i, t in enumerate(prog.types):
-        if t and t["k"] == "adt" and M.norm_path(t["path"]) == "iter::Bytes":
+        if t and t["k"] == "adt" and M.tail_is(M.norm_path(t["path"]), "Bytes"):
             bt = t
     if bt is None:
         raise Unanalysable("anchor missing: type iter::Bytes")
